@@ -1,6 +1,6 @@
 //go:build !(go1.27 && !http2legacy)
 
-package http2
+package http2_test
 
 // Public-API reproductions of the two client-side C10 findings (overlay into /repo/http2 to run:
 // sh repro/run.sh C10 http2). Both tests state the property ("once all bodies are read or closed the peer's view of
@@ -11,6 +11,8 @@ import (
 	"net/http"
 	"testing"
 	"testing/synctest"
+
+	. "golang.org/x/net/http2"
 )
 
 // verifC10PeerWindow drains the frames the client wrote and returns the sum of connection-level WINDOW_UPDATEs.
@@ -18,19 +20,19 @@ func verifC10ConnUpdates(tc *testClientConn) int64 {
 	var sum int64
 	for {
 		synctest.Wait()
-		if !tc.hasFrame() {
+		f := tc.readFrame()
+		if f == nil {
 			return sum
 		}
-		if wu, ok := tc.readFrame().(*WindowUpdateFrame); ok && wu.StreamID == 0 {
+		if wu, ok := f.(*WindowUpdateFrame); ok && wu.StreamID == 0 {
 			sum += int64(wu.Increment)
 		}
 	}
 }
 
 func verifC10State(tc *testClientConn) (avail, unsent int64) {
-	tc.cc.mu.Lock()
-	defer tc.cc.mu.Unlock()
-	return int64(tc.cc.inflow.avail), int64(tc.cc.inflow.unsent)
+	a, u := tc.cc.VerifReproC10Inflow() // client_credit_export_test.go
+	return int64(a), int64(u)
 }
 
 // Finding C10-client-read-past-content-length: the server sends more DATA than the Content-Length it declared; the
